@@ -22,5 +22,10 @@ INVARIANT ThShiftInvariant
 INVARIANT ThScaleLaw
 INVARIANT ThLayout
 INVARIANT ThTablesDistinguish
+INVARIANT ThLabelSwap
+INVARIANT ThPerfectRanking
+INVARIANT ThMissingTransparent
+INVARIANT ThPrPoints
+INVARIANT ThSumIdx
 CONSTRAINT EmitCase
 CHECK_DEADLOCK FALSE
